@@ -486,6 +486,123 @@ def f(x, n, b, xs):
     a = 0
   return a
 '''),
+    ('k:raise_to_outer_try', '''def f(x, n, b, xs):
+  state = 'start'
+  pos = -1
+  try:
+    for i in range(n):
+      try:
+        if i == x:
+          state = 'aborted'
+          pos = t(1, i)
+          raise UErr(i)
+        if i == x + 1:
+          raise UErr2(i)
+        state = 'running'
+      except UErr2:
+        state = 'inner'
+      state = 'after'
+  except UErr:
+    return (state, pos)
+  w = 0
+  while w < n:
+    w = w + 1
+    try:
+      try:
+        if b:
+          hit = w
+          raise KeyError(w)
+      except UErr:
+        hit = -1
+      hit = 0
+    except KeyError:
+      return ('key', hit)
+  return (state, pos)
+'''),
+    ('k:del_in_branch', '''def f(x, n, b, xs):
+  tmp = t(1, x)
+  y = 0
+  if b:
+    y = tmp
+    del tmp
+  try:
+    y = y + tmp
+  except NameError:
+    y = -y - 1
+  keep = 5
+  for i in range(n):
+    if i > x:
+      del keep
+      keep = i
+  acc = [1, 2]
+  if n > 1:
+    del acc
+  try:
+    z = len(acc)
+  except NameError:
+    z = -1
+  return (y, keep, z)
+'''),
+    ('k:global_declared_in_nested_function', '''def f(x, n, b, xs):
+  G = 0
+  H = 'local'
+  def bump():
+    global G
+    G = G + 100
+    return G
+  def read():
+    global H
+    return H
+  for i in range(n):
+    G = G + i
+    if i > x:
+      H = 'local-updated'
+  r = bump() if b else -1
+  return (G, H, r, read())
+'''),
+    ('k:pass_and_continue_tails', '''def f(x, n, b, xs):
+  gain = 1
+  out = 0
+  acc = 0
+  for v in xs + [3, 4]:
+    out = out + gain * v
+    if v > x:
+      gain = gain * 2
+    else:
+      gain = 1
+    pass
+  i = 0
+  while i < n:
+    if acc > x:
+      out = out + acc
+    if i == 1:
+      acc = 5
+    i = i + 1
+    if b:
+      continue
+    acc = acc + 1
+    pass
+  return (out, gain, acc)
+'''),
+    ('k:defaults_read_enclosing_state', '''def f(x, n, b, xs):
+  base = t(1, x)
+  step = 1
+  if b:
+    base = base + 1
+  def h(a, *, k=base):
+    return a + k
+  if n > 1:
+    step = step + n
+  g = lambda a, *, k=step: a * k
+  m = 0
+  if x > 0:
+    m = 7
+  else:
+    m = 9
+  def q(a, k=m):
+    return a - k
+  return (h(1), g(2), q(3))
+'''),
     ('k:delete_and_rebind', '''def f(x, n, b, xs):
   a = 1
   c = 2
@@ -569,7 +686,7 @@ ANALYSIS_ONLY = [
 '''),
 ]
 
-GLOBS = {'k:global_nonlocal_mix': {'G': 3}}
+GLOBS = {'k:global_nonlocal_mix': {'G': 3}, 'k:global_declared_in_nested_function': {'G': 5, 'H': 'module'}}
 NEEDS_HELPER = {'k:slices_and_starred'}
 
 
